@@ -171,6 +171,36 @@ def check(ctx):
     v = model.module_value("apischema.conversions.converters", "default_deserialization")
     ctx.check(norm(v) == "_deserializers.get", "C12.R4", "default_deserialization", v, "default_deserialization must be the exact-type lookup", None, None, detail="_deserializers.get")
 
+    # ---------------- R9: inheritance of a lazily registered serializer
+    ctx.rule("C12.R9", "a serializer registered lazily is inherited by subclasses exactly as if it were registered directly: default_serialization inherits bare converters and Conversions whose `inherited` is None / True, and LazyConversion.inherited answers the same for what the lazy getter returns", floor=2)
+    li = model.func("apischema.conversions.conversions.LazyConversion.inherited")
+    t9 = norm(li.node)
+    bare_inherited_direct = "not isinstance(conversion, (Conversion, LazyConversion))" in norm(ds.node)
+    # every return of LazyConversion.inherited reached when the resolved conversion is NOT a Conversion must be None (inherited), unless nothing was resolved
+    from ..pathcond import parents_of as _po, path_condition as _pc
+    pm9 = _po(li.node)
+    bad9 = []
+    for r in walk_no_nested(li.node):
+        if not isinstance(r, ast.Return):
+            continue
+        cond = norm(_pc(li.node, r, pm9))
+        v = r.value
+        in_conv_branch = "isinstance(conversion, Conversion)" in cond and "not isinstance(conversion, Conversion)" not in cond
+        if in_conv_branch:
+            continue
+        # value for a bare converter
+        vals = [v.body, v.orelse] if isinstance(v, ast.IfExp) else [v]
+        for x in vals:
+            tx = norm(x)
+            if tx.startswith("isinstance(conversion, Conversion) and"):
+                bad9.append(r)          # False for every bare converter
+            elif tx in ("False",) and "conversion is not None" not in norm(v) and "conversion is None" not in cond:
+                bad9.append(r)
+    ctx.check(not (bare_inherited_direct and bad9), "C12.R9", f"{li.qualname}:bare-converter", None,
+              "LazyConversion.inherited is False when the lazy getter returns a bare function, while default_serialization inherits a bare function registered directly: serializer(lazy=lambda: f, source=Base) is applied to Base and refused (Unsupported) for its subclasses",
+              li, bad9[0] if bad9 else li.node, detail="None (inherited) for a bare converter")
+    ctx.check("conversion.inherited in (None, True)" in norm(ds.node), "C12.R9", f"{ds.qualname}:inherited", None, "default_serialization no longer inherits conversions whose `inherited` is None or True", ds, ds.node, detail="conversion.inherited in (None, True)")
+
     # ---------------- R5
     ctx.rule("C12.R5", "ValueError -> ValidationError only for catch_value_error converters", floor=3)
     cw = model.func(f"{DESER_MOD}.ConversionWithValueErrorMethod.deserialize")
@@ -213,6 +243,7 @@ def check(ctx):
 
 
 def mutants(mb):
+    mb.add_text("lazy-bare-converter-not-inherited", "apischema/conversions/conversions.py", "        if isinstance(conversion, Conversion):\n            return conversion.inherited\n        # a bare converter is inherited, as when it is registered directly\n        return None if conversion is not None else False\n", "        return isinstance(conversion, Conversion) and conversion.inherited\n", "C12.R9", "bare-converter")
     CVp = "apischema/conversions/visitor.py"
     D = "apischema/deserialization/__init__.py"
     S = "apischema/serialization/__init__.py"
